@@ -16,7 +16,7 @@ the equator with vorticity as a pseudo-scalar).
 import numpy as np
 from harness import util, dyn
 
-THEOREMS = ['C10_rot_group', 'C10_rot_inverse', 'C10_mir_involutive', 'C10_rot_mir_commute',
+THEOREMS = ['C10_rot_group', 'C10_rot_steps', 'C10_rot_inverse', 'C10_mir_involutive', 'C10_rot_mir_commute',
             'C10_synth_rot_equivariant', 'C10_analysis_rot_equivariant',
             'C10_synth_mir_equivariant', 'C10_analysis_mir_equivariant',
             'C10_nodal_pointwise_equivariant', 'C10_column_ops_equivariant',
@@ -42,6 +42,9 @@ LEVEL_NOTE = ('theorems are about the Gallina models (Model/Symmetry.v actions, 
 TECHNIQUE = 'Coq proof of equivariance of every building block and of the integrator term language; table obligations; equivariance oracles on the implementation'
 
 TOL = 1e-11
+import os
+_DEBUG = bool(os.environ.get('C10_DEBUG'))
+_WORST = {}
 
 
 # ---------------------------------------------------------------------------
@@ -196,7 +199,7 @@ def generate(ctx):
         yield dyn_case('hs', spacing='equiangular')
         for kind in ('dry', 'moist', 'sw'):
             yield dyn_case(kind, impl='fast', spacing='equiangular', integrator='imex_rk_sil3', filters=['exponential'], nsteps=2)
-            yield dyn_case(kind, impl='real', spacing='equiangular_with_poles', integrator='crank_nicolson_rk4', nsteps=2)
+            yield dyn_case(kind, impl='real', spacing='equiangular', integrator='crank_nicolson_rk4', nsteps=2, I=12, J=8)  # (grids with pole nodes have sec2_lat = inf: no dynamics there)
         yield dyn_case('dry', integrator='crank_nicolson_rk2', nsteps=2, I=12, J=6)
         yield dyn_case('dry', integrator='imex_rk_sil3', nsteps=2, M=5, L=6, I=16, J=8, impl='fast')
 
@@ -240,7 +243,9 @@ def r_tables(ctx, a):
     ctx.table_obligation('H_nodes_sym (weights symmetric, sin(lat) antisymmetric) ' + tag, e1 <= 1e-14 and e2 <= 1e-14,
                          {'w_asym': e1, 'sinlat_asym': e2})
     e3 = float(np.abs(np.asarray(g.cos_lat)[:J] - np.asarray(g.cos_lat)[:J][::-1]).max())
-    e4 = float(np.abs(np.asarray(g.sec2_lat)[:J] / np.asarray(g.sec2_lat)[:J][::-1] - 1).max())
+    with np.errstate(all='ignore'):
+        s2 = np.asarray(g.sec2_lat, dtype=np.float64)[:J]
+        e4 = float(np.max(np.where(s2 == s2[::-1], 0.0, np.abs(s2 / s2[::-1] - 1))))
     ctx.table_obligation('H_metric_sym (cos_lat, sec2_lat symmetric) ' + tag, e3 <= 1e-14 and e4 <= 1e-12, {'cos': e3, 'sec2': e4})
     # H_parity, H_p_pairs
     l = np.arange(p.shape[2])
@@ -332,6 +337,8 @@ def _close(ctx, clause, lhs, rhs, floor=0.0):
         sc = max(float(np.max(np.abs(u))) if u.size else 0.0, float(np.max(np.abs(v))) if v.size else 0.0, floor, 1e-300)
         if not (np.all(np.isfinite(u)) and np.all(np.isfinite(v))):
             return ctx.oracle(clause, False, f'leaf {n}: non-finite values')
+        if _DEBUG:
+            _WORST[clause] = max(_WORST.get(clause, 0.0), float(np.max(np.abs(u - v))) / sc if u.size else 0.0)
         if not ctx.oracle_close(clause, u, v, scale=sc, tol_rel=TOL):
             return False
     return True
@@ -462,6 +469,8 @@ def r_dynamics(ctx, a):
                         f"({'mirror' if T.mirror else 'rotation by grid steps'}; orography transformed too)",
                    res[name], want)
         ctx.count('sym:' + ('mirror' if T.mirror else 'rot'))
+    if _DEBUG:
+        for k2, v2 in sorted(_WORST.items()): print('   worst rel err %.2e  %s' % (v2, k2))
 
 
 RUNNERS = {'tables': r_tables, 'actions': r_actions, 'sht': r_sht, 'ops': r_ops, 'dynamics': r_dynamics}
